@@ -129,7 +129,7 @@ def run(ctx):
             t2 = ringgen.fragment(random.Random(seed), lrng=random.Random(seed + 7), labels=ringgen.LABELS2)
             variants.append((len(jobs) - 1, len(jobs)))
             jobs.append({'op': 'match', 'text': t2, 'smiles': sm, 'graphs': False, 'timeout': 30})
-        if rng.random() < 0.4:
+        if rng.random() < 0.85:
             t3 = ringgen.fragment(random.Random(seed), lrng=random.Random(seed + 11), labels=ringgen.LABELS3)
             variants.append((k0, len(jobs)))
             jobs.append({'op': 'match', 'text': t3, 'smiles': sm, 'graphs': False, 'timeout': 30})
